@@ -42,11 +42,16 @@ coap_set_log_level(coap_log_t level) {
 #ifdef ENV_ALLOC_MAY_FAIL
 /* C18: any subset of allocations may fail; env_alloc_fail_enabled lets a scenario switch failures off again */
 int env_alloc_fail_enabled = 1;
-unsigned env_alloc_calls, env_alloc_failed;
+unsigned env_alloc_calls, env_alloc_failed, env_alloc_failable;
 static int
 env_fail_now(void) {
   env_alloc_calls++;
   if (!env_alloc_fail_enabled) return 0;
+#ifdef ENV_FAIL_AT
+  /* "fail exactly the k-th allocation", k concrete per job: the message layout stays concrete */
+  if (env_alloc_failable++ == (ENV_FAIL_AT)) { env_alloc_failed++; return 1; }
+  return 0;
+#endif
   {
     _Bool env_alloc_fail;
     VERIF_IN_SET(_Bool, env_alloc_fail);
